@@ -35,7 +35,7 @@ type c18Base struct {
 	seg2IDs map[string]bool
 }
 
-var c18Queries = []string{"*", "d=x", "n>1", "m=foo", "* | stats count, sum(n) by d", "* | sort n | fields id, n"}
+var c18Queries = []string{"*", "d=x", "d=y", "n>1", "m=foo", "* | stats count, sum(n) by d", "* | sort n | fields id, n"}
 
 func c18Build(rep *kernel.Report) (*c18Base, error) {
 	w, err := kernel.Spawn(kernel.SpawnOpts{KeepDir: true})
@@ -50,12 +50,15 @@ func c18Build(rep *kernel.Report) (*c18Base, error) {
 		return nil, fmt.Errorf("boot: %v", err)
 	}
 	b := &c18Base{events: map[string]*MEvent{}, seg1IDs: map[string]bool{}, seg2IDs: map[string]bool{}}
+	// the two blocks of the damaged segment hold the same number of records with different values at the same
+	// positions, so that a reader serving one block's buffers for the other produces rows that do not satisfy the filters
 	evs := []string{
 		c01Event(0, T0, `"d":"x","n":1,"m":"foo bar"`),
 		c01Event(1, T0+1, `"d":"y","n":2,"m":"foo"`),
-		c01Event(2, T0+2, `"d":"x","n":3.5,"m":"baz"`),
-		c01Event(3, T0+3, `"d":"x","n":4,"m":"foo"`),
-		c01Event(4, T0+4, `"d":"z","n":5,"m":"qux"`),
+		c01Event(2, T0+2, `"d":"z","n":3.5,"m":"baz"`),
+		c01Event(3, T0+3, `"d":"w","n":0.5,"m":"qux"`),
+		c01Event(4, T0+4, `"d":"x","n":4,"m":"foo"`),
+		c01Event(5, T0+5, `"d":"z","n":5,"m":"qux"`),
 	}
 	for i, e := range evs {
 		m, err := Flatten(e, "timestamp")
@@ -64,7 +67,7 @@ func c18Build(rep *kernel.Report) (*c18Base, error) {
 		}
 		id := fmt.Sprintf("e%d", i)
 		b.events[id] = m
-		if i < 3 {
+		if i < 4 {
 			b.seg1IDs[id] = true
 		} else {
 			b.seg2IDs[id] = true
@@ -73,7 +76,7 @@ func c18Build(rep *kernel.Report) (*c18Base, error) {
 	steps := []struct {
 		ev []string
 		op string
-	}{{evs[0:2], "flush"}, {evs[2:3], "rotate"}, {evs[3:5], "rotate"}}
+	}{{evs[0:2], "flush"}, {evs[2:4], "rotate"}, {evs[4:6], "rotate"}}
 	for _, st := range steps {
 		if err := ingestStep(w, 0, "c18", st.ev); err != nil {
 			return nil, err
@@ -203,6 +206,8 @@ func (b *c18Base) run(j *c18Job, rep *kernel.Report) (*Fail, error) {
 			switch q {
 			case "d=x":
 				ok = m.Cols["d"][0].S == "x"
+			case "d=y":
+				ok = m.Cols["d"][0].S == "y"
 			case "n>1":
 				ok = m.Cols["n"][0].Float() > 1
 			case "m=foo":
@@ -300,9 +305,9 @@ func c18RecordDiff(m *MEvent, rec map[string]interface{}) string {
 
 func C18() int {
 	rep := kernel.NewReport("C18", "fault_enumeration")
-	rep.Rule = "a rotated log segment (3 events, 2 blocks, dictionary and plain columns, numeric column with range index, block summaries, segment statistics, rollups, full-meta) next to a " +
+	rep.Rule = "a rotated log segment (4 events in 2 blocks of 2 with different values at equal positions, dictionary and plain columns, numeric column with range index, block summaries, segment statistics, rollups, full-meta) next to a " +
 		"second undamaged segment of the same index and the shared segmeta.json; every truncation length and every single-byte modification (quick: b^0xff; thorough: b^1, b^0x80, b^0xff, 0) of every " +
-		"file is installed in a copy that a fresh process opens; 6 queries (match-all, dictionary, numeric, text filter, grouped stats, sort). Oracle: no crash, no hang (60 s), rows of the undamaged " +
+		"file is installed in a copy that a fresh process opens; 7 queries (match-all, two dictionary filters, numeric, text filter, grouped stats, sort). Oracle: no crash, no hang (60 s), rows of the undamaged " +
 		"segment complete and unchanged, and for checksummed column files (.csg) rows of the damaged segment carry their original values or are absent. non-trivial = every case (each damages a file the start-up or a query reads)"
 	rep.Assume = []string{"changed answers caused by damage in unchecksummed side files are counted (altered_from_unchecksummed_side_files), not reported — the statement limits 'never altered' to checksummed column blocks",
 		"metrics segment files and decoder-level byte strings are not yet covered by this check"}
